@@ -49,7 +49,9 @@ template <class M, class R> void run_one(const std::string &text, bool check, bo
   M m;
   bool ok;
   try { ok = reader(text, check, bu, m); }
-  catch (std::exception &) { ++fz::C().exceptions; return; }
+  catch (std::bad_alloc &) { ++fz::C().exceptions; return; }     // allowed: a declared size that cannot be allocated
+  catch (std::length_error &) { ++fz::C().exceptions; return; }  // (vector::reserve / resize beyond max_size)
+  catch (std::exception &e) { fz::violation((std::string("readStream let an exception escape that is not an allocation failure: ") + e.what()).c_str()); }
   if (ok) {
     ++fz::C().success;
     if (fz::C().sample_ok.empty() || (nontrivial && fz::C().success % 997 == 0)) fz::C().sample_ok = text.substr(0, 160);
